@@ -198,7 +198,10 @@ def _iter_sources(e):
     return [nm] if nm and "::" not in nm else None
 
 
-def _joined_rep(b, var_node, fn):
+JOINED_MODE = ["inline"]  # how a pre-joined Punctuated is read: the element template inline, or `#(#v),*` of the variable itself
+
+
+def _joined_rep(b, var_node, fn, mode="inline"):
     """`let v: Punctuated<_, Comma> = xs.iter().map(|x| quote! { #x: #x }).collect();` interpolated as `#v` is the
     repetition `#( #xs: #xs ),*`: returned as a `rep` node (None when the binding is not such a join)"""
     init = b["init"]
@@ -212,6 +215,9 @@ def _joined_rep(b, var_node, fn):
         return None
     r = A.peel(e["receiver"])
     body = None
+    if mode == "self":
+        # the joined list read as the repetition of its own elements, whatever produces them
+        return {"t": "rep", "body": [{"t": "var", "s": var_node["s"], "span": var_node["span"]}], "sep": ",", "span": var_node["span"]}
     if A.kind(r) == "Expr::MethodCall" and r["method"]["sym"] == "map" and len(r["args"]) == 1 and A.kind(r["args"][0]) == "Expr::Closure":
         cl = r["args"][0]
         srcs = _iter_sources(r["receiver"])
@@ -268,7 +274,7 @@ def compose(fn, ir, depth=0, in_rep=False):
             if toks is not None:
                 out.extend(compose(fn, to_ir(toks), depth + 1, in_rep))
                 continue
-            rep = _joined_rep(b, x, fn) if b and b["kind"] == "let" and b.get("init") is not None else None
+            rep = _joined_rep(b, x, fn, JOINED_MODE[0]) if b and b["kind"] == "let" and b.get("init") is not None else None
             if rep is not None:
                 out.append(rep)
                 continue
@@ -483,9 +489,14 @@ def templates_both(fn):
     streams built programmatically - a rule that looks for a template finds it however it is assembled"""
     plain = templates_of(fn)
     comp = templates_of(fn, composed=True)
+    JOINED_MODE[0] = "self"
+    try:
+        comp2 = templates_of(fn, composed=True)
+    finally:
+        JOINED_MODE[0] = "inline"
     seen = {ir_text(t.ir) for t in plain}
     out = list(plain)
-    for t in comp:
+    for t in comp + comp2:
         tx_ = ir_text(t.ir)
         if tx_ not in seen:
             seen.add(tx_)
